@@ -18,7 +18,10 @@ EXPLANATION = (
     "automaton), pads the tail with padval, and swaps bytes exactly when the requested order differs from "
     "sys.byteorder ('<' vs big, '>'/'!' vs little), swapping back afterwards. WavStream: the unpacker table has keys "
     "8*{1,2,3,4}; every Struct format is little-endian and its calcsize equals the sample width plus the prefix bytes; "
-    "the 24-bit entry prefixes exactly one zero byte (low end) and shifts right by 8 (sign extension), 8-bit uses ord; "
+    "each entry of the unpacker table is interpreted abstractly on n unknown bytes (E15: exact linear forms over the "
+    "bytes, struct formats read through the struct module's size table, shifts, masks, manual sign correction) and must "
+    "equal the little-endian two's complement value for every byte string, 8-bit the unsigned byte; every use of "
+    "readframes sits inside the try whose finally closes the file; "
     "normalisation divides by 1 << (bits-1) after subtracting 128 for 8 bits; bits = 8*sampwidth, rate and channels "
     "mirror the header; stereo frames are split at the sample width; the file is closed in a finally around the read "
     "loop. Not decided: byte-exact round trips (value level).")
@@ -241,6 +244,7 @@ def run(chk, repo):
                               "width/8 + prefix length; 24 bits: one zero byte prefixed, result >> 8; 8 bits: ord")
     up = repo.find_assign(LW, "_unpackers", scope="WavStream")
     chk.require(isinstance(up, ast.Dict), "WavStream._unpackers is not a dict literal")
+    from .. import bytecodec as bc
     keys = []
     for k, v in zip(up.keys, up.values):
         try:
@@ -249,60 +253,24 @@ def run(chk, repo):
             raise AnalysisError("_unpackers key is not a literal")
         keys.append(bits)
         Wk = WW("WavStream._unpackers[%s]" % bits)
-        if bits == 8:
-            chk.decide(unparse(v) == "ord", "C18.unpackers", Wk, "8 bits: " + unparse(v), why="8-bit WAV samples are unsigned "
-                       "bytes", node=v)
+        if type(bits) is not int or bits % 8 or bits <= 0:
+            chk.bad("C18.unpackers", Wk, "width %r" % (bits,), why="PCM widths are whole bytes", node=v)
             continue
-        # (lambda a: lambda v: EXPR)(Struct(fmt).unpack)
-        ok = isinstance(v, ast.Call) and isinstance(v.func, ast.Lambda) and isinstance(v.func.body, ast.Lambda) \
-            and len(v.args) == 1 and isinstance(v.args[0], ast.Attribute) and v.args[0].attr == "unpack" \
-            and isinstance(v.args[0].value, ast.Call) and canon_call(wmod, v.args[0].value) in ("struct.Struct",)
-        if not ok and isinstance(v, ast.Call) and isinstance(v.func, ast.Name) and len(v.args) == 1 \
-                and isinstance(v.args[0], ast.Attribute) and v.args[0].attr == "unpack" \
-                and isinstance(v.args[0].value, ast.Call) and canon_call(wmod, v.args[0].value) in ("struct.Struct",):
-            # helper idiom: unsigned unpack + manual two's complement
-            helper = repo.find(LW, v.func.id, required=False)
-            res = _manual_twos_complement(helper, ast.literal_eval(v.args[0].value.args[0]), bits) if helper is not None else None
-            if res is None:
-                raise AnalysisError("_unpackers[%s]: helper %s not recognised" % (bits, v.func.id))
-            good, what, why = res
-            chk.decide(good, "C18.unpackers", Wk, what, why=why, node=v)
+        n = bits // 8
+        want = bc.unsigned_target(1) if bits == 8 else bc.signed_target(n)
+        try:
+            got = bc.decode(repo, LW, v, n)
+        except bc.WrongSize as ex:
+            chk.bad("C18.unpackers", Wk, short(v), why="struct.error on every sample: %s" % ex, node=v)
             continue
-        if not ok:
-            raise AnalysisError("_unpackers[%s]: shape not recognised: %s" % (bits, short(v)))
-        fmt = ast.literal_eval(v.args[0].value.args[0])
-        a = v.func.args.args[0].arg
-        vv = v.func.body.args.args[0].arg
-        expr = v.func.body.body
-        shift = 0
-        if isinstance(expr, ast.BinOp) and isinstance(expr.op, ast.RShift):
-            shift = ast.literal_eval(expr.right)
-            expr = expr.left
-        prefix = b""
-        ok_expr = isinstance(expr, ast.Subscript) and unparse(expr.slice) == "0" and isinstance(expr.value, ast.Call) \
-            and unparse(expr.value.func) == a
-        arg = expr.value.args[0] if ok_expr else None
-        suffix = b""
-        if ok_expr and isinstance(arg, ast.BinOp) and isinstance(arg.op, ast.Add):
-            if isinstance(arg.left, ast.Constant) and unparse(arg.right) == vv:
-                prefix = arg.left.value
-            elif isinstance(arg.right, ast.Constant) and unparse(arg.left) == vv:
-                suffix = arg.right.value
-            else:
-                ok_expr = False
-        elif ok_expr:
-            ok_expr = unparse(arg) == vv
-        little = fmt.startswith("<")
-        size_ok = ok_expr and _struct.calcsize(fmt) == bits // 8 + len(prefix) + len(suffix)
-        signed = fmt[-1:] in ("h", "i", "l", "q", "b")
-        if bits == 24:
-            good = little and size_ok and prefix == b"\x00" and suffix == b"" and shift == 8 and signed
-            why = "24-bit samples: one zero byte at the low end of a little-endian 32-bit signed int, then >> 8 (sign extension)"
-        else:
-            good = little and size_ok and prefix == b"" and suffix == b"" and shift == 0 and signed
-            why = "%d-bit samples are little-endian signed integers of exactly %d bytes" % (bits, bits // 8)
-        chk.decide(good, "C18.unpackers", Wk, "Struct(%r), prefix %r, suffix %r, >> %d" % (fmt, prefix, suffix, shift),
-                   why=why, node=v)
+        except bc.Undecided as ex:
+            raise AnalysisError("_unpackers[%s]: decoder not interpretable (%s): %s" % (bits, ex, short(v)))
+        ok = isinstance(got, bc.Int) and got.key() == want.key()
+        chk.decide(ok, "C18.unpackers", Wk, "decodes %d byte(s) to %s" % (n, got.describe() if isinstance(got, bc.Int) else got),
+                   why="a %d-bit sample is %s; expected %s for every byte string" % (
+                       bits, "an unsigned byte" if bits == 8 else "the little-endian two's complement value of its %d bytes "
+                       "(sign extension from bit %d, the most negative sample included)" % (n, bits - 1), want.describe()),
+                   node=v)
     chk.decide(sorted(keys) == [8, 16, 24, 32], "C18.unpackers", WW("WavStream._unpackers"), "widths %s" % sorted(keys),
                why="PCM widths 8, 16, 24, 32 must all be supported", node=up)
 
@@ -354,6 +322,28 @@ def run(chk, repo):
         ok = [unparse(s) for s in wl.body] == ["el = w.readframes(1)", "if not el:\n    break", "yield el"]
     chk.decide(ok, "C18.decode", WW("WavStream.block_reader"), "read one frame at a time until empty; close() in finally",
                why="the file must be closed once the stream is exhausted (or abandoned), and frames read in order", node=br)
+    chk.rule("C18.close", "every read of frames (any use of .readframes) sits inside a try whose finally closes the wave file")
+    nrf = 0
+    for n in ast.walk(ws):
+        if isinstance(n, ast.Attribute) and n.attr == "readframes":
+            nrf += 1
+            p, guarded = n, False
+            while p is not None and p is not ws:
+                par = getattr(p, "_parent", None)
+                if isinstance(par, ast.Try) and any(p is x for x in par.body) and any(
+                        isinstance(c, ast.Call) and isinstance(c.func, ast.Attribute) and c.func.attr == "close"
+                        for f_ in par.finalbody for c in ast.walk(f_)):
+                    guarded = True
+                    break
+                if isinstance(par, FuncTypes) and par is not ws:
+                    # the function holding the read: its whole frame loop must be the guarded region, so keep climbing
+                    # only inside this function
+                    pass
+                p = par
+            chk.decide(guarded, "C18.close", WW("WavStream.__init__"), "%s at line %d" % (unparse(n), n.lineno),
+                       why="frames read outside the try/finally that closes the file: on that path the file stays open "
+                           "after the stream is exhausted", node=n)
+    chk.floor("C18.close", nrf, 1, "uses of readframes")
     last = docstring_free(ws.body)[-1]
     chk.decide(unparse(last) in ("super(WavStream, self).__init__(data_generator())", "super().__init__(data_generator())"),
                "C18.decode", WW("WavStream.__init__"), short(last), why="the Stream must wrap the decoding generator", node=last)
